@@ -7,6 +7,7 @@ import (
 	"fmt"
 	"sort"
 	"sync"
+	"sync/atomic"
 	"time"
 
 	"github.com/openconfig/gnmi/coalesce"
@@ -338,5 +339,93 @@ func coalesceEnum(args []string) error {
 	}
 	ev := ss.close()
 	fmt.Printf("DRV coalesce enum programs=%d schedules=%d histories=%d events=%d hangs=%d\n", len(progs), total, distinct, ev, hangs)
+	return nil
+}
+
+// coalesce duel (C11): two or three producers released together by a spin barrier, each inserting one item (mostly
+// the same one) into a fresh queue; afterwards the queue is drained. Windows of a few nanoseconds inside Insert -
+// between two of its critical sections, where no hook sits - are only met when the calls really start together.
+// Identical histories are written once.
+//
+//   verifdrv coalesce duel -n N -out DIR -shards K
+func coalesceDuel(args []string) error {
+	fs := flag.NewFlagSet("coalesce duel", flag.ContinueOnError)
+	n := fs.Int("n", 50000, "rounds")
+	out := fs.String("out", "", "output directory")
+	shards := fs.Int("shards", 16, "trace files")
+	if err := fs.Parse(args); err != nil {
+		return err
+	}
+	ss, err := newShards(*out, "duel", *shards)
+	if err != nil {
+		return err
+	}
+	seen := map[string]bool{}
+	distinct := 0
+	for i := 0; i < *n; i++ {
+		np := 2 + i%2
+		items := make([]string, np)
+		for p := range items {
+			items[p] = "a"
+			if (i/2+p)%5 == 0 {
+				items[p] = "b"
+			}
+		}
+		q := coalesce.NewQueue()
+		var evs []trace.E
+		var mu sync.Mutex
+		emit := func(e trace.E) { mu.Lock(); evs = append(evs, e); mu.Unlock() }
+		emit(trace.E{"ev": "reset"})
+		if i%3 == 0 { // something already pending
+			emit(trace.E{"ev": "inv", "g": "init", "op": "Insert", "i": "b"})
+			q.Insert("b")
+			emit(trace.E{"ev": "ret", "g": "init", "op": "Insert", "res": trace.E{"kind": "fresh"}})
+		}
+		for p := 0; p < np; p++ {
+			emit(trace.E{"ev": "inv", "g": fmt.Sprintf("p%d", p), "op": "Insert", "i": items[p]})
+		}
+		var ready int32
+		var wg sync.WaitGroup
+		for p := 0; p < np; p++ {
+			wg.Add(1)
+			go func(p int) {
+				defer wg.Done()
+				atomic.AddInt32(&ready, 1)
+				for atomic.LoadInt32(&ready) < int32(np) {
+				}
+				fresh, err := q.Insert(items[p])
+				kind := "coalesced"
+				if err != nil {
+					kind = "refused"
+				} else if fresh {
+					kind = "fresh"
+				}
+				emit(trace.E{"ev": "ret", "g": fmt.Sprintf("p%d", p), "op": "Insert", "res": trace.E{"kind": kind}})
+			}(p)
+		}
+		wg.Wait()
+		// drain: what is delivered, with which duplicate counts
+		for q.Len() > 0 {
+			emit(trace.E{"ev": "inv", "g": "c", "op": "Next"})
+			it, dup, err := q.Next(context.Background())
+			if err != nil {
+				emit(trace.E{"ev": "ret", "g": "c", "op": "Next", "res": trace.E{"kind": "error:" + err.Error()}})
+				break
+			}
+			emit(trace.E{"ev": "ret", "g": "c", "op": "Next", "res": trace.E{"kind": "item", "i": fmt.Sprint(it), "dup": dup}})
+		}
+		emit(trace.E{"ev": "final", "len": q.Len()})
+		b, _ := json.Marshal(evs)
+		if k := string(b); !seen[k] {
+			seen[k] = true
+			w := ss.ws[distinct%len(ss.ws)]
+			distinct++
+			for _, e := range evs {
+				w.Emit(e)
+			}
+		}
+	}
+	ev := ss.close()
+	fmt.Printf("DRV coalesce duel rounds=%d histories=%d events=%d\n", *n, distinct, ev)
 	return nil
 }
